@@ -10,18 +10,14 @@
        and hence, by run_sound: for every call depth, every pure function f of the library, all argument objects, every
        execution:  every object that existed at entry is unmodified at exit.
 
-   On the unchanged tree the full statement is FALSE: SMPose._string_matrix stores a lazily created formatter into
-   an attribute of its receiver (self._ansiformatter = ANSIMatrix(..)), in a method that is not a documented
-   mutator.  Hence the _refuted / _partial pairs below; the exempt list names exactly that function.  *)
+   The full statement holds on the final tree (theorems C17_all_functions_accepted, C17_no_argument_is_modified).
+   History: until commit 6a82e3e of the library SMPose._string_matrix stored a lazily created formatter into an attribute
+   of its receiver; the development then carried a _refuted / _partial pair with that function exempt.  *)
 From Coq Require Import List String Bool Arith Lia.
 Import ListNotations.
 From SM Require Import Model.C17_Effects.
 From SMgen Require Import EffProgs_C17.
 Open Scope string_scope.
-
-(* functions whose rejection is a confirmed defect of the unchanged tree (known/C17.json) *)
-Definition exempt_C17 : list string := ["spatialmath.super_pose:SMPose._string_matrix"].
-Definition prog_partial : program := reclassify exempt_C17 names_C17 prog_C17.
 
 (* ---------------------------------------------------------------------------------------------- soundness *)
 (* for ANY program and ANY claimed fresh set that pass the checker: real calls, every depth, every execution *)
@@ -88,64 +84,46 @@ Proof. eapply param_write_mutates; [reflexivity|reflexivity]. Qed.
 Example C17_names_cover_programs : List.length names_C17 = List.length prog_C17.
 Proof. vm_compute. reflexivity. Qed.
 
-(* full statement, FALSE on the unchanged tree:
-     Theorem C17_all_functions_accepted : check_prog prog_C17 fresh_C17 = true.                                 *)
-Theorem C17_all_functions_accepted_refuted :
-  exists f F, nth_error names_C17 f = Some "spatialmath.super_pose:SMPose._string_matrix" /\
-              nth_error prog_C17 f = Some F /\ fself F = false /\
-              check_fun prog_C17 fresh_C17 f F = false /\
-              (* and the rejection is real: an execution of this very program changes an object that existed at entry *)
-              forall h, exists args nx h' nx' r, args_ok args nx /\ run prog_C17 1 f args h nx h' nx' r /\
-                                                 exists id, id < nx /\ h' id <> h id.
-Proof.
-  let o := eval vm_compute in (find_idx "spatialmath.super_pose:SMPose._string_matrix" names_C17 0) in
-  match o with Some ?k => exists k | None => fail "the exempt function is not in the program" end.
-  eexists.
-  split; [vm_compute; reflexivity|].
-  split; [vm_compute; reflexivity|].
-  split; [reflexivity|].
-  split; [vm_compute; reflexivity|].
-  eapply param_write_mutates; [vm_compute; reflexivity|vm_compute; reflexivity].
-Qed.
-Print Assumptions C17_all_functions_accepted_refuted.
-
-(* every other function / method / nested function / lambda of the library is accepted *)
-Theorem C17_all_functions_accepted_partial :
-  all_ok_but exempt_C17 names_C17 (verdicts prog_C17 fresh_C17) = true.
+(* full statement (holds since the fix of SMPose._string_matrix): every function / method / nested function / lambda of the
+   library is accepted by the verified checker *)
+Theorem C17_all_functions_accepted : check_prog prog_C17 fresh_C17 = true.
 Proof. vm_compute. reflexivity. Qed.
-Print Assumptions C17_all_functions_accepted_partial.
-
-(* ... and the program in which the exempt function is never called implicitly passes as a whole *)
-Theorem C17_program_checked_partial : check_prog prog_partial fresh_C17 = true.
-Proof. vm_compute. reflexivity. Qed.
-Print Assumptions C17_program_checked_partial.
+Print Assumptions C17_all_functions_accepted.
 
 (* C17 for the library: a call of any pure function (any depth of nested library calls, any branch / loop / order,
-   any arguments) leaves every object that existed at entry unmodified -- for executions that do not pass through
-   the exempt function *)
-Theorem C17_no_argument_is_modified_partial :
+   any arguments) leaves every object that existed at entry unmodified *)
+Theorem C17_no_argument_is_modified :
   forall n f F args h nx h' nx' r,
-    nth_error prog_partial f = Some F -> fself F = false -> args_ok args nx ->
-    run prog_partial n f args h nx h' nx' r ->
+    nth_error prog_C17 f = Some F -> fself F = false -> args_ok args nx ->
+    run prog_C17 n f args h nx h' nx' r ->
     forall id, id < nx -> h' id = h id.
-Proof. intros. eapply pure_call_no_mutation; eauto. exact C17_program_checked_partial. Qed.
-Print Assumptions C17_no_argument_is_modified_partial.
+Proof. intros. eapply pure_call_no_mutation; eauto. exact C17_all_functions_accepted. Qed.
+Print Assumptions C17_no_argument_is_modified.
 
 (* constructors and the documented list mutators modify at most their receiver *)
-Theorem C17_mutators_touch_only_receiver_partial :
+Theorem C17_mutators_touch_only_receiver :
   forall n f F args h nx h' nx' r,
-    nth_error prog_partial f = Some F -> args_ok args nx ->
-    run prog_partial n f args h nx h' nx' r ->
+    nth_error prog_C17 f = Some F -> args_ok args nx ->
+    run prog_C17 n f args h nx h' nx' r ->
     forall id, id < nx -> nth_error args 0 <> Some id -> h' id = h id.
-Proof. intros. eapply selfwriter_call_only_receiver; eauto. exact C17_program_checked_partial. Qed.
-Print Assumptions C17_mutators_touch_only_receiver_partial.
+Proof. intros. eapply selfwriter_call_only_receiver; eauto. exact C17_all_functions_accepted. Qed.
+Print Assumptions C17_mutators_touch_only_receiver.
 
 (* functions of the regenerated fresh set return an object allocated during the call (no alias of an argument) *)
-Theorem C17_fresh_functions_return_new_objects_partial :
+Theorem C17_fresh_functions_return_new_objects :
   forall n f args h nx h' nx' r,
-    In f fresh_C17 -> args_ok args nx -> run prog_partial n f args h nx h' nx' r -> nx <= r.
-Proof. intros. eapply fresh_call_returns_new; eauto. exact C17_program_checked_partial. Qed.
-Print Assumptions C17_fresh_functions_return_new_objects_partial.
+    In f fresh_C17 -> args_ok args nx -> run prog_C17 n f args h nx h' nx' r -> nx <= r.
+Proof. intros. eapply fresh_call_returns_new; eauto. exact C17_all_functions_accepted. Qed.
+Print Assumptions C17_fresh_functions_return_new_objects.
+
+(* the defect repaired by 6a82e3e, kept as a regression example: the effect program of the old SMPose._string_matrix
+   (self._ansiformatter = ANSIMatrix(..); return self._ansiformatter.str(self.A)) is rejected, and it really mutates *)
+Example C17_old_string_matrix_rejected :
+  check_prog [ mkfunc 1 false [Def 1 Fresh; Write 0; Def 2 Other; Ret 2; Def 3 Fresh; Ret 3] ] [] = false /\
+  forall h, exists args nx h' nx' r, args_ok args nx /\
+    run [ mkfunc 1 false [Def 1 Fresh; Write 0; Def 2 Other; Ret 2; Def 3 Fresh; Ret 3] ] 1 0 args h nx h' nx' r /\
+    exists id, id < nx /\ h' id <> h id.
+Proof. split; [reflexivity|]. eapply param_write_mutates; [reflexivity|reflexivity]. Qed.
 
 (* the hypotheses are met by real data, and the regenerated fresh set is a CHECKED EXPECTATION for the public
    constructors-of-values: each of them returns an object allocated during the call (never a module-level, cached or
